@@ -509,7 +509,85 @@ MAIN_OPS = ('sleep', 'start', 'put', 'join', 'trace')
 MAIN_EMITS = ('param', 'stop', 'notify')
 
 
-def _fake_cf(vsched, connected):
+WIRE_VERSIONS = (6, 7, 8, 9, 10)      # both sides of the hover switch (<= 8 legacy) and of the go_to switch (< 8 legacy)
+
+
+def _wire_cf(vsched, connected, ver):
+    """the REAL Commander / HighLevelCommander / PlatformService / Crazyflie.send_packet (C08's stub Crazyflie, built from the
+    modules imported inside the vsched session) over a recording link: what is observed is the packet handed to the link driver"""
+    import warnings
+    from harness.corr import c08
+    warnings.simplefilter('ignore', DeprecationWarning)   # cflib/__init__ switches them to 'always' when it is (re)imported; the legacy hover branch warns per packet
+    saved = c08._STUB.pop('cls', None)          # C08 caches the class of the modules it imported outside the session
+    try:
+        cls = c08._stub_class()
+    finally:
+        c08._STUB.pop('cls', None)
+        if saved is not None:
+            c08._STUB['cls'] = saved
+
+    class Link:
+        needs_resending = False
+
+        def send_packet(self, pk):
+            vsched.emit('pkt', vsched.now(), pk.header, bytes(pk.data))
+
+    class Param:
+        def set_value(self, name, value):
+            vsched.emit('param', vsched.now(), name, value)
+    cf = cls(ver)
+    cf.link = Link()
+    cf.param = Param()
+    cf.is_connected = lambda: connected
+    return cf
+
+
+def decode_packet(ver, t, header, data):
+    """firmware-side view of one packet (C08's decoder twin) as a C17 event; anything unexpected is a '?' event"""
+    from harness.corr import c08
+    from harness.lib.common import bits_f32
+    w = c08.fw_decode(ver, header, data).split(' ')
+    v = [int(x) for x in w[1:]] if all(x.lstrip('-').isdigit() for x in w[1:]) else None
+    if w[0] == 'hover' and v:
+        return (t, 'H') + tuple(bits_f32(b) for b in v)
+    if w[0] == 'stop':
+        return (t, 'S')
+    if w[0] == 'notifySetpointsStop' and v:
+        return (t, 'N', v[0])
+    if w[0] in ('hlTakeoff2', 'hlLand2') and v and v[0] == 0 and (v[3] == 1 or bits_f32(v[2]) == 0.0):   # all groups; current yaw or yaw 0.0 (the API default)
+        return ('hl', t, 'T' if w[0] == 'hlTakeoff2' else 'L', bits_f32(v[1]), bits_f32(v[4]))
+    if w[0] == 'hlGoTo2' and v and v[0] == 0 and v[2] == 0:                        # all groups, not linear
+        return ('hl', t, 'G') + tuple(bits_f32(b) for b in v[3:6]) + (bits_f32(v[6]), bits_f32(v[7]), bool(v[1]))
+    if w[0] == 'hlGoTo' and v and v[0] == 0:
+        return ('hl', t, 'G') + tuple(bits_f32(b) for b in v[2:5]) + (bits_f32(v[5]), bits_f32(v[6]), bool(v[1]))
+    if w[0] == 'hlStop' and v and v[0] == 0:
+        return ('hl', t, 'S')
+    return (t, '?', ' '.join(w), header, bytes(data).hex())
+
+
+def observed(res, wire):
+    """the run's trace with every packet replaced by what the firmware of protocol version `wire` decodes from it"""
+    for tid, kind, label, info in res.trace:
+        if kind == 'emit' and info[0] == 'pkt':
+            e = decode_packet(wire, info[1], info[2], info[3])
+            if e[0] == 'hl':
+                yield tid, 'emit', label, e
+            elif e[1] == 'H':
+                yield tid, 'emit', label, ('hover',) + (e[0],) + e[2:]
+            elif e[1] == 'S':
+                yield tid, 'emit', label, ('stop', e[0])
+            elif e[1] == 'N':
+                yield tid, 'emit', label, ('notify', e[0], e[2])
+            else:
+                yield tid, 'emit', label, ('undecodable', e[0]) + e[2:]
+        else:
+            yield tid, kind, label, info
+
+
+def _fake_cf(vsched, connected, wire=None):
+    if wire is not None:
+        return _wire_cf(vsched, connected, wire)
+
     class Commander:
         def send_hover_setpoint(self, vx, vy, yawrate, zdistance):
             vsched.emit('hover', vsched.now(), vx, vy, yawrate, zdistance)
@@ -548,7 +626,7 @@ def _fake_cf(vsched, connected):
     return CF()
 
 
-def mc_main(vsched, prog, mode, default_height, connected, state, instrument=False):
+def mc_main(vsched, prog, mode, default_height, connected, state, instrument=False, wire=None):
     """the function run as the controlled main thread; `state` receives what the run leaves behind.
     instrument=True (failing-input search only): the set-points handed to the thread and the primitive boundaries are logged"""
     def main():
@@ -565,7 +643,7 @@ def mc_main(vsched, prog, mode, default_height, connected, state, instrument=Fal
         else:
             m._SetPointThread = base
         state['period'] = base.UPDATE_PERIOD
-        cf = _fake_cf(vsched, connected)
+        cf = _fake_cf(vsched, connected, wire)
         mc = m.MotionCommander(cf) if default_height is None else m.MotionCommander(cf, default_height=default_height)
         state['mc'] = mc
         state['entered'] = False
@@ -587,15 +665,16 @@ def mc_main(vsched, prog, mode, default_height, connected, state, instrument=Fal
     return main
 
 
-def digest_mc(res, state):
-    """canonical observation of one real run: result, schedule (model letters), timed events"""
+def digest_mc(res, state, wire=None):
+    """canonical observation of one real run: result, schedule (model letters), timed events
+    (wire = protocol version: the events are what the firmware decodes from the packets handed to the link)"""
     sched, events, params = [], [], []
     last_clock = 0.0
     threads = set()
     ties = 0
     reads = []             # was the height read by land() stale (a set-point put by the main thread not yet taken by the thread)?
     pending = 0
-    for tid, kind, label, info in res.trace:
+    for tid, kind, label, info in (res.trace if wire is None else observed(res, wire)):
         if tid == -1 and kind == 'clock':
             if info - last_clock > 1e-7:       # a float-rounding "tie" is a tie of the exact model: no time passes
                 sched.append('2')
@@ -625,6 +704,8 @@ def digest_mc(res, state):
                     pending = max(0, pending - 1)
             elif kind == 'emit' and info[0] == 'hover':
                 events.append((info[1], 'H') + tuple(info[2:]))
+        if kind == 'emit' and info[0] == 'undecodable':
+            events.append((info[1], '?') + tuple(info[2:]))
     mc = state.get('mc')
     th = getattr(mc, '_thread', None) if mc is not None else None
     alive = bool(th is not None and th.is_alive()) if res.outcome != 'ok' else False
@@ -645,6 +726,7 @@ class McRunner:
     def __enter__(self):
         import logging
         logging.disable(logging.CRITICAL)
+        from harness.corr import c08  # noqa: F401  (its firmware decoder / stub Crazyflie are used in wire mode; import before any filter is set)
         self.session = self.vsched.Session(step_limit=self.step_limit, yield_on_time=False, trace_points=TRACE_POINTS)
         self.session.__enter__()
         # run-time setting only (nothing in harness/vsched is edited): virtual time.time() starts at 0 instead of 1.6e9,
@@ -657,28 +739,36 @@ class McRunner:
         self.vsched.core.EPOCH = self._epoch
         return self.session.__exit__(*a)
 
-    def run(self, prog, mode='with', default_height=None, connected=True, policy=None, instrument=False, **kw):
+    def run(self, prog, mode='with', default_height=None, connected=True, policy=None, instrument=False, wire=None, **kw):
+        import warnings
         state = {}
-        with contextlib.redirect_stdout(io.StringIO()):
-            res = self.session.run(mc_main(self.vsched, prog, mode, default_height, connected, state, instrument), policy=policy, **kw)
-        d = digest_mc(res, state)
+        with contextlib.redirect_stdout(io.StringIO()), warnings.catch_warnings():
+            warnings.simplefilter('ignore')
+            res = self.session.run(mc_main(self.vsched, prog, mode, default_height, connected, state, instrument, wire), policy=policy, **kw)
+        d = digest_mc(res, state, wire)
         d['entered'] = state.get('entered', False)
         d['period'] = state.get('period')
+        d['wire'] = wire
         return d, res
 
-    def explore(self, prog, mode='with', default_height=None, connected=True, max_preemptions=None, max_runs=None, **kw):
+    def explore(self, prog, mode='with', default_height=None, connected=True, max_preemptions=None, max_runs=None, wire=None, **kw):
+        import warnings
         state = {}
-        ex = self.session.explore(mc_main(self.vsched, prog, mode, default_height, connected, state),
+        ex = self.session.explore(mc_main(self.vsched, prog, mode, default_height, connected, state, False, wire),
                                   max_preemptions=max_preemptions, max_runs=max_runs, **kw)
-        for res in ex:
-            yield digest_mc(res, state), res
+        with warnings.catch_warnings():
+            warnings.simplefilter('ignore')
+            for res in ex:
+                d = digest_mc(res, state, wire)
+                d['wire'] = wire
+                yield d, res
         self.last_complete = ex.complete
 
 
-def hl_main(vsched, prog, mode, ctor, connected, state):
+def hl_main(vsched, prog, mode, ctor, connected, state, wire=None):
     def main():
         import cflib.positioning.position_hl_commander as m
-        cf = _fake_cf(vsched, connected)
+        cf = _fake_cf(vsched, connected, wire)
         pc = m.PositionHlCommander(cf, **ctor)
         state['pc'] = pc
         state['positions'] = []
@@ -697,20 +787,24 @@ def hl_main(vsched, prog, mode, ctor, connected, state):
 
 
 class HlRunner(McRunner):
-    def run(self, prog, mode='with', ctor=None, connected=True):
+    def run(self, prog, mode='with', ctor=None, connected=True, wire=None):
+        import warnings
         state = {}
-        with contextlib.redirect_stdout(io.StringIO()):
-            res = self.session.run(hl_main(self.vsched, prog, mode, ctor or {}, connected, state))
+        with contextlib.redirect_stdout(io.StringIO()), warnings.catch_warnings():
+            warnings.simplefilter('ignore')
+            res = self.session.run(hl_main(self.vsched, prog, mode, ctor or {}, connected, state, wire))
         pc = state.get('pc')
         events = []
-        for tid, kind, label, info in res.trace:
+        for tid, kind, label, info in (res.trace if wire is None else observed(res, wire)):
             if kind == 'emit' and info[0] == 'hl':
                 events.append((info[1],) + tuple(info[2:]))
             elif kind == 'emit' and info[0] == 'param':
                 events.append((info[1], 'C', info[2], info[3]))
+            elif kind == 'emit' and info[0] in ('undecodable', 'hover', 'stop', 'notify'):
+                events.append((info[1], '?', info[0]) + tuple(info[2:]))
         return {'exc': exc_name(res.exc), 'outcome': res.outcome, 'flying': bool(getattr(pc, '_is_flying', False)),
                 'now': res.now, 'pos': pc.get_position() if pc is not None else None, 'events': events,
-                'positions': list(state.get('positions', []))}
+                'positions': list(state.get('positions', [])), 'wire': wire}
 
 
 # =========================================================================================================
@@ -718,6 +812,7 @@ class HlRunner(McRunner):
 # =========================================================================================================
 TOL_T = 1e-9      # virtual time stamps (binary64 sums of 0.2 s periods vs exact rationals)
 TOL_V = 1e-9      # heights, velocities, durations (binary64 rounding; the driver's sqrt is correct to 1e-12)
+TOL_W = 1e-6      # the same quantities as decoded by the firmware from the packets (binary32 fields: 2^-24 relative)
 
 
 def fr(s):
@@ -748,7 +843,7 @@ def close(a, b, tol):
     return abs(a - b) <= tol * max(1.0, abs(a), abs(b))
 
 
-def diff_events(model, real):
+def diff_events(model, real, tol_v=TOL_V):
     """None when equal up to the stated tolerances, else a short description of the first difference"""
     if len(model) != len(real):
         return 'event count model=%d real=%d' % (len(model), len(real))
@@ -758,8 +853,10 @@ def diff_events(model, real):
         if not close(m[0], r[0], TOL_T):
             return 'event %d (%s) time model=%r real=%r' % (i, m[1], m[0], r[0])
         for j in range(2, len(m)):
-            if not close(m[j], float(r[j]), TOL_V):
+            if not close(m[j], float(r[j]), tol_v):
                 return 'event %d (%s) field %d model=%r real=%r' % (i, m[1], j, m[j], r[j])
+        if r[1] == 'N' and len(r) > 2 and r[2] != 0:
+            return 'event %d: notify_setpoint_stop with remain_valid_milliseconds=%r' % (i, r[2])
     return None
 
 
@@ -774,7 +871,7 @@ def diff_mc(reply, real):
         return '_is_flying model=%s real=%s' % (reply['flying'], real['flying'])
     if real['outcome'] == 'ok' and reply['left'] != '0':
         return 'real main thread finished, model has %s instructions left' % reply['left']
-    d = diff_events(reply['events'], real['events'])
+    d = diff_events(reply['events'], real['events'], TOL_V if real.get('wire') is None else TOL_W)
     if d:
         return d
     rp = [(t, int(v)) for t, n, v in real['params'] if n == 'kalman.resetEstimation']
@@ -824,7 +921,7 @@ def diff_hl(reply, real):
             ev.append(e[:7])
         else:
             ev.append(e)
-    d = diff_events(reply['events'], ev)
+    d = diff_events(reply['events'], ev, TOL_V if real.get('wire') is None else TOL_W)
     if d:
         return d
     for name, a, b in [('final position', [reply['position']], [real['pos']]), ('positions', reply['positions'], real['positions'])]:
@@ -1005,22 +1102,27 @@ def correspond(ctx):
         for i in range(n_prog):
             prog, mode, dh, connected = gen_mc_program(rng)
             runs = []
-            d, res = r.run(prog, mode, dh, connected)
+            # observation level: the commander API (recording commander) or the wire (REAL Commander + Crazyflie.send_packet over a
+            # recording link, decoded by the firmware twin of C08 for a protocol version on either side of the hover switch)
+            wires = [None] + [rng.choice(WIRE_VERSIONS) for _ in range(8)]
+            d, res = r.run(prog, mode, dh, connected, wire=wires[i % 2])
             runs.append((d, res, 'np'))
-            for _ in range(4 if thorough else 2):
-                d, res = r.run(prog, mode, dh, connected, policy=vsched.Random(rng.randrange(2 ** 32), stay=rng.choice([0.0, 0.5, 0.8])))
+            for j in range(4 if thorough else 2):
+                d, res = r.run(prog, mode, dh, connected, policy=vsched.Random(rng.randrange(2 ** 32), stay=rng.choice([0.0, 0.5, 0.8])),
+                               wire=wires[2 + j] if (i + j) % 2 == 0 else None)
                 runs.append((d, res, 'random'))
             if len(prog) <= 3 and (thorough or i % 4 == 0):
                 k = 0
-                for d, res in r.explore(prog, mode, dh, connected, max_preemptions=2, max_runs=60 if thorough else 25):
+                for d, res in r.explore(prog, mode, dh, connected, max_preemptions=2, max_runs=60 if thorough else 25,
+                                        wire=wires[7] if i % 8 == 0 else None):
                     runs.append((d, res, 'dfs'))
                     k += 1
                 ctx.count('mc:dfs-tree-enumerated-completely' if r.last_complete else 'mc:dfs-cut-at-max-runs')
             seen = set()
             for d, res, how in runs:
-                if d['sched'] in seen:
+                if (d['sched'], d['wire']) in seen:
                     continue
-                seen.add(d['sched'])
+                seen.add((d['sched'], d['wire']))
                 if d['outcome'] not in ('ok', 'step-limit') or d['deaths']:
                     ctx.disagree('mc-run', prog_text(prog), 'n/a', 'outcome %s deaths %s' % (d['outcome'], d['deaths']))
                     continue
@@ -1028,17 +1130,21 @@ def correspond(ctx):
                     ctx.count('mc:skipped-rounding-residue')
                     continue
                 cases.append((mc_line(prog, mode, dh, connected, d['sched']), d,
-                              {'kind': 'mc', 'prog': prog_text(prog), 'mode': mode, 'default_height': dh, 'schedule_len': len(d['sched']), 'policy': how},
-                              ('mc', prog_text(prog), mode, dh, connected, d['sched'])))
+                              {'kind': 'mc', 'prog': prog_text(prog), 'mode': mode, 'default_height': dh, 'schedule_len': len(d['sched']), 'policy': how,
+                               'observed': 'commander API' if d['wire'] is None else 'packets decoded for protocol version %d' % d['wire']},
+                              ('mc', prog_text(prog), mode, dh, connected, d['sched'], d['wire'])))
                 ctx.count('mc:policy:' + how)
+                ctx.count('mc:observed:' + ('api' if d['wire'] is None else 'wire-v%d' % d['wire']))
     n_hl = 3000 if thorough else 500
     hcases = []
     with HlRunner() as r:
         for i in range(n_hl):
             prog, mode, ctor, connected = gen_hl_program(rng)
-            d = r.run(prog, mode, ctor, connected)
-            hcases.append((hl_line(prog, mode, ctor, connected), d, {'kind': 'hl', 'prog': prog_text(prog), 'mode': mode, 'ctor': ctor},
-                           ('hl', prog_text(prog), mode, tuple(sorted(ctor.items())), connected)))
+            wire = None if i % 2 == 0 else rng.choice(WIRE_VERSIONS)
+            d = r.run(prog, mode, ctor, connected, wire=wire)
+            ctx.count('hl:observed:' + ('api' if wire is None else 'wire-v%d' % wire))
+            hcases.append((hl_line(prog, mode, ctor, connected), d, {'kind': 'hl', 'prog': prog_text(prog), 'mode': mode, 'ctor': ctor, 'wire': wire},
+                           ('hl', prog_text(prog), mode, tuple(sorted(ctor.items())), connected, wire)))
     replies = ctx.lean(DRIVER, [c[0] for c in cases] + [c[0] for c in hcases])
     for (line, d, desc, key), rep in zip(cases, replies[:len(cases)]):
         ctx.case(desc, key)
@@ -1077,6 +1183,15 @@ def spec_mc(prog, mode, d, res):
     ev = d['events']
     kinds = ''.join(e[1] for e in ev)
     period = d['period']
+    wire = d.get('wire')
+    tol = 1e-9 if wire is None else TOL_W          # binary32 fields when the observation is the decoded packet
+    trace = list(res.trace if wire is None else observed(res, wire))
+    where = '' if wire is None else ' [as decoded by a protocol-version-%d firmware]' % wire
+    if '?' in kinds:
+        bad.append(('mc-wire', 'a packet of the flight is not a hover / stop / notify-setpoint-stop command for the firmware: %r%s' %
+                    ([e for e in ev if e[1] == '?'][0][2:], where)))
+    if any(e[1] == 'N' and len(e) > 2 and e[2] != 0 for e in ev):
+        bad.append(('mc-wire', 'notify_setpoint_stop with a non-zero validity' + where))
     started = any(tid == 0 and kind == 'start' for tid, kind, label, info in res.trace)
     cause = 'D15' if d['exc'] in ('zero_div', 'value_error') else 'mc-ends-stopped'
     # -- ends on the ground command ----------------------------------------------------------------------------
@@ -1113,7 +1228,7 @@ def spec_mc(prog, mode, d, res):
     at_t = []
     have_cmd = any(kind == 'emit' and info[0] == 'cmd' for tid, kind, label, info in res.trace)
     if have_cmd:
-        for tid, kind, label, info in res.trace:
+        for tid, kind, label, info in trace:
             if tid == 0 and kind == 'start':
                 z, vz, t_prev, cur, at_t = 0.0, 0.0, None, (0.0, 0.0, 0.0), []
             elif kind == 'emit' and info[0] == 'cmd':
@@ -1132,12 +1247,12 @@ def spec_mc(prog, mode, d, res):
                 else:
                     # a command put at this very instant may not have reached the thread yet: both heights coincide at the instant
                     want = z + vz * (t - t_prev)
-                if abs(zz - want) > 1e-9 * max(1.0, abs(want)):
-                    bad.append(('mc-height-integrates', 'hover height %.12g at t=%.6f, integral of the commanded vertical velocity is %.12g' % (zz, t, want)))
+                if abs(zz - want) > tol * max(1.0, abs(want)):
+                    bad.append(('mc-height-integrates', 'hover height %.12g at t=%.6f, integral of the commanded vertical velocity is %.12g%s' % (zz, t, want, where)))
                     break
                 allowed = [cur] + [c[1] for c in at_t if abs(c[0] - t) <= EPS]
-                if not any(all(abs(p - q) <= 1e-12 * max(1.0, abs(q)) for p, q in zip((vx, vy, yaw), c)) for c in allowed):
-                    bad.append(('mc-hover-setpoint', 'hover set-point (%r, %r, %r) at t=%.6f is not the commanded one %r' % (vx, vy, yaw, t, cur)))
+                if not any(all(abs(p - q) <= (1e-12 if wire is None else tol) * max(1.0, abs(q)) for p, q in zip((vx, vy, yaw), c)) for c in allowed):
+                    bad.append(('mc-hover-setpoint', 'hover set-point (vx, vy, yaw rate) = (%r, %r, %r) at t=%.6f is not the commanded one %r%s' % (vx, vy, yaw, t, cur, where)))
                     break
         # -- each blocking primitive: velocity * duration = requested displacement, in the requested direction -------------------------
         spans = {}
@@ -1193,12 +1308,15 @@ def spec_hl(prog, mode, ctor, connected, d):
     flying = False
     ev = [e for e in d['events'] if e[1] != 'C']
     gi = 0          # index of the next unexplained event
-    pos_i = 0
+    wire = d.get('wire')
+    tolw = 1e-9 if wire is None else TOL_W
+    where = '' if wire is None else ' [as decoded by a protocol-version-%d firmware]' % wire
 
     def expect(kind, fields, what):
         nonlocal gi
-        if gi >= len(ev) or ev[gi][1] != kind or any(abs(a - b) > 1e-9 * max(1.0, abs(b)) for a, b in zip(ev[gi][2:], fields)):
-            bad.append(('hl-command', '%s: expected %s%r, observed %r' % (what, kind, tuple(fields), ev[gi] if gi < len(ev) else None)))
+        if gi >= len(ev) or ev[gi][1] != kind or any(abs(a - b) > tolw * max(1.0, abs(b)) for a, b in zip(ev[gi][2:], fields)) \
+                or (kind == 'G' and ev[gi][7] is not False):
+            bad.append(('hl-command', '%s: expected %s%r, observed %r%s' % (what, kind, tuple(fields), ev[gi] if gi < len(ev) else None, where)))
             return False
         gi += 1
         return True
@@ -1291,6 +1409,12 @@ def spec_hl(prog, mode, ctor, connected, d):
     return bad
 
 
+# one representative of every kind of primitive (all directions / sides), for the systematic kind x protocol-version sweep
+MC_KIND_SAMPLES = [('go', k, 0.25, 0.25) for k in 'lrfbud'] + [('mv', 0.375, -0.5, 0.0, 0.625), ('turn', 'l', 45.0, None), ('turn', 'r', 45.0, 90.0),
+                   ('circ', 'l', 0.5, 0.5, 90.0), ('circ', 'r', 0.25, None, 45.0)]
+HL_KIND_SAMPLES = [('go', k, 0.25, None) for k in 'lrfbud'] + [('mv', 0.375, -0.5, 0.25, 0.25), ('goto', 0.5, -0.75, 1.0, None), ('goto', 1.5, 0.25, None, 1.0)]
+
+
 def _corpus():
     import glob
     import json
@@ -1326,26 +1450,40 @@ def search(ctx):
                 for e in corpus if e['kind'] == 'mc']
         for i in range(400 if thorough else 70):
             jobs.append(gen_mc_program(rng) + (None, None))
-        for prog, mode, dh, connected, src, choices in jobs:
+        sweep = len(jobs)
+        for p in MC_KIND_SAMPLES:                 # every kind of primitive, observed on the wire for every protocol version of the sweep
+            jobs.append(([p], 'with', 0.5, True, None, None))
+        for n, (prog, mode, dh, connected, src, choices) in enumerate(jobs):
             pols = [None] + [vsched.Random(rng.randrange(2 ** 32), stay=rng.choice([0.0, 0.6])) for _ in range(3 if thorough else 2)]
             if choices is not None:
                 pols.insert(0, vsched.Replay(list(choices)))       # the recorded interleaving of a corpus witness
+            wires = [None, rng.choice(WIRE_VERSIONS), None, rng.choice(WIRE_VERSIONS), rng.choice(WIRE_VERSIONS)]
+            if n >= sweep:
+                pols = [None] * len(WIRE_VERSIONS)
+                wires = list(WIRE_VERSIONS)
             for k, pol in enumerate(pols):
-                fine = k == len(pols) - 1          # one schedule with yield points at every time.time() call as well
-                d, res = r.run(prog, mode, dh, connected, policy=pol, instrument=True, yield_on_time=fine)
+                fine = k == len(pols) - 1 and n < sweep          # one schedule with yield points at every time.time() call as well
+                d, res = r.run(prog, mode, dh, connected, policy=pol, instrument=True, yield_on_time=fine, wire=wires[k % len(wires)])
                 ctx.count('search:mc-runs')
+                ctx.count('search:mc-observed:' + ('api' if d['wire'] is None else 'wire'))
                 if d['deaths']:
                     report('mc-thread-death', 'set-point thread died: %s' % d['deaths'], {'kind': 'mc', 'prog': prog, 'mode': mode, 'default_height': dh})
                 for key, what in spec_mc(prog, mode, d, res):
                     report(key, what, {'kind': 'mc', 'prog': [list(p) for p in prog], 'prog_text': prog_text(prog), 'mode': mode, 'default_height': dh,
-                                       'connected': connected, 'choices': list(res.choices), 'corpus': src})
+                                       'connected': connected, 'choices': list(res.choices), 'corpus': src, 'protocol_version': d['wire']})
     with HlRunner() as r:
         jobs = [(_tup(e['prog']), e.get('mode', 'with'), e.get('ctor', {}), e.get('connected', True), e['file']) for e in corpus if e['kind'] == 'hl']
         for i in range(4000 if thorough else 600):
             jobs.append(gen_hl_program(rng) + (None,))
-        for prog, mode, ctor, connected, src in jobs:
-            d = r.run(prog, mode, ctor, connected)
+        sweep = len(jobs)
+        for p in HL_KIND_SAMPLES:
+            for v in WIRE_VERSIONS:
+                jobs.append(([p], 'with', {}, True, None))
+        for n, (prog, mode, ctor, connected, src) in enumerate(jobs):
+            wire = (None if n % 2 == 0 else rng.choice(WIRE_VERSIONS)) if n < sweep else WIRE_VERSIONS[(n - sweep) % len(WIRE_VERSIONS)]
+            d = r.run(prog, mode, ctor, connected, wire=wire)
             ctx.count('search:hl-runs')
+            ctx.count('search:hl-observed:' + ('api' if wire is None else 'wire'))
             for key, what in spec_hl(prog, mode, ctor, connected, d):
                 report(key, what, {'kind': 'hl', 'prog': [list(p) for p in prog], 'prog_text': prog_text(prog), 'mode': mode, 'ctor': ctor,
-                                   'connected': connected, 'corpus': src})
+                                   'connected': connected, 'corpus': src, 'protocol_version': wire})
